@@ -11,6 +11,7 @@ import (
 	"sort"
 	"strconv"
 	"strings"
+	"sync/atomic"
 	"testing"
 	"testing/synctest"
 
@@ -21,11 +22,12 @@ import (
 // ---------- searches ----------
 
 type c14sSearch struct {
-	name   string
-	cfg    c14sCfg
-	prefix []c14sOp
-	ops    []c14sOp
-	depth  int
+	name     string
+	cfg      c14sCfg
+	prefix   []c14sOp
+	ops      []c14sOp
+	depth    int
+	verified atomic.Bool // the start prefix has passed all checks on one instance
 }
 
 func (s *c14sSearch) fullName() string {
@@ -60,7 +62,7 @@ var c14sStarts = []struct {
 	{"mixed-ages", []string{"Connected(A1)", "Advance(5s)", "Connected(B1)", "TagPeer(A,x,5)", "Advance(5s)"}},
 }
 
-func c14sSearches() []c14sSearch {
+func c14sSearches() []*c14sSearch {
 	full := c14sOpsWhere(func(*c14sOpDef) bool { return true })
 	// protection with several tags against both kinds of trim, on two eligible peers
 	protect := c14sOpsNamed("TrimOpenConns", "ForceTrim", "Advance(5s)", "Connected(A2)", "Disconnected(A1)", "TagPeer(A,x,10)",
@@ -69,26 +71,40 @@ func c14sSearches() []c14sSearch {
 	account := c14sOpsNamed("Connected(A1)", "Connected(A2)", "Connected(B1)", "Disconnected(A1)", "Disconnected(A2)", "Disconnected(B1)",
 		"TrimOpenConns", "Advance(5s)", "TagPeer(A,x,5)", "TagPeer(A,x,10)", "TagPeer(A,y,5)", "UntagPeer(A,x)", "UpsertTag(A,x,-5)",
 		"Bump(A,d,+5)", "Remove(A,d)", "TagPeer(B,x,5)", "Bump(B,d,+5)")
-	dFull, dProt, dAcc := 3, 6, 5
-	if vrep.Thorough() {
-		dFull, dProt, dAcc = 4, 8, 6
+	thorough := vrep.Thorough()
+	dFull, dProt, dAcc := 3, 8, 5
+	if thorough {
+		dFull, dProt, dAcc = 4, 10, 6
 	}
 	dFull = c14sEnvInt("VERIF_C14S_DEPTH", dFull)
-	var out []c14sSearch
+	var out []*c14sSearch
+	// the two focused searches are cheap: first, so that a deadline cannot starve them
+	out = append(out, &c14sSearch{name: "protection/two-eligible", cfg: c14sCfg{1, 2}, prefix: c14sOpsNamed(c14sStarts[1].ops...), ops: protect, depth: dProt})
+	out = append(out, &c14sSearch{name: "accounting/empty", cfg: c14sCfg{1, 2}, ops: account, depth: dAcc})
 	for _, cfg := range []c14sCfg{{1, 2}, {2, 3}} {
 		for _, st := range c14sStarts {
-			out = append(out, c14sSearch{name: "full-alphabet/" + st.name, cfg: cfg, prefix: c14sOpsNamed(st.ops...), ops: full, depth: dFull})
+			d := dFull
+			if !thorough && cfg.low == 2 && st.name != "empty" && st.name != "three-eligible" {
+				// quick tier: with low=2 these start states hold <= 2 connections, a trim needs one more
+				// operation to have anything to do; one level less keeps the quick tier small
+				d--
+			}
+			out = append(out, &c14sSearch{name: "full-alphabet/" + st.name, cfg: cfg, prefix: c14sOpsNamed(st.ops...), ops: full, depth: d})
 		}
 	}
-	out = append(out, c14sSearch{name: "protection/two-eligible", cfg: c14sCfg{1, 2}, prefix: c14sOpsNamed(c14sStarts[1].ops...), ops: protect, depth: dProt})
-	out = append(out, c14sSearch{name: "accounting/empty", cfg: c14sCfg{1, 2}, ops: account, depth: dAcc})
 	return out
 }
 
 func (s *c14sSearch) spec(t *testing.T, st *c14sStats) *seqmc.Spec[*c14sInst, c14sOp] {
 	return &seqmc.Spec[*c14sInst, c14sOp]{
-		Name:     s.fullName(),
-		New:      func() *c14sInst { return c14sNew(s.cfg, st, s.prefix) },
+		Name: s.fullName(),
+		New: func() *c14sInst {
+			in := c14sNew(s.cfg, st, s.prefix, !s.verified.Load())
+			if in.pending == nil {
+				s.verified.Store(true)
+			}
+			return in
+		},
 		Close:    func(in *c14sInst) { in.close() },
 		Ops:      func(*c14sInst) []c14sOp { return s.ops }, // shared slice: the frontier stores only the header
 		Apply:    func(in *c14sInst, op c14sOp) error { return in.Apply(op) },
@@ -176,9 +192,13 @@ func c14sReplay(t *testing.T, path string) {
 	r := vrep.New("C14", "seq")
 	st := &c14sStats{classes: map[string]struct{}{}}
 	synctest.Test(t, func(*testing.T) {
-		in := c14sNew(cfg, st, prefix)
+		in := c14sNew(cfg, st, prefix, true)
 		defer in.close()
-		fmt.Printf("replay: low=%d high=%d start=%v expected key=%s\n", cfg.low, cfg.high, prefix, rec.Key)
+		var pn []string
+		for _, o := range prefix {
+			pn = append(pn, c14sOpTab[o].name)
+		}
+		fmt.Printf("replay: low=%d high=%d start=%v expected key=%s\n", cfg.low, cfg.high, pn, rec.Key)
 		if in.pending != nil {
 			fmt.Printf("  start prefix: VIOLATION %v\n", in.pending)
 		}
